@@ -63,6 +63,22 @@ def check_model(fm, model, out, ancestors_limit=None):
             return None
         return got
 
+    # a long-lived object of every operation, executed twice, must agree with a fresh one
+    for cls in (FMCountLeafs, FMLeafFeatures, FMMaxDepthTree, FMAverageBranchingFactor, FMVariationPoints):
+        fresh = lib(lambda: cls().execute(fm).get_result())
+        old_ = lib(lambda: (_bool.long_lived(cls).execute(fm), _bool.long_lived(cls).execute(fm).get_result())[1])
+        if isinstance(fresh, Raised) or isinstance(old_, Raised):
+            continue
+
+        def norm(v):
+            if isinstance(v, list):
+                return sorted(f.name for f in v)
+            if isinstance(v, dict):
+                return {k.name: sorted(x.name for x in vs) for k, vs in v.items()}
+            return v
+        if norm(fresh) != norm(old_):
+            out.append((f"C16.reused-object-differs:{cls.__name__}", ""))
+
     got = run("count_leafs", lambda: FMCountLeafs().execute(fm).get_result())
     if got is not None and (isinstance(got, bool) or got != len(ref["leaves"])):
         out.append(("C16.count_leafs", f"expected {len(ref['leaves'])}, got {got!r}"))
@@ -122,6 +138,10 @@ def check(case):
             return out               # reader failures on the corpus are C09's business
         check_model(fm, model, out, ancestors_limit=3000)
         return out
+    if "deep" in case:
+        model, fm = build_deep(case["deep"], case["tail"])
+        check_model(fm, model, out, ancestors_limit=50)
+        return out
     model = case["model"]
     fm = build.build(model)
     check_model(fm, model, out)
@@ -161,6 +181,28 @@ def big_trees(draw, max_feats):
 
 def enum_shapes(tier, seed):
     return [{"model": m} for m in shapes.all_specs(6 if tier == "thorough" else 5)]
+
+
+def enum_deep(tier, seed):
+    """Chain-like models whose longest path has 300 / 600 / 800 edges (below the ~990 the library's own recursive
+    get_relations can handle under Python's default recursion limit): 'returns a value, without raising, on every
+    well-formed model' must not depend on the tree being shallow."""
+    return [{"deep": d, "tail": t} for d in (300, 600, 800) for t in (0, 3)]
+
+
+def build_deep(depth, tail):
+    """Iteratively built chain root -> N1 -> ... -> N<depth>, the last node with `tail` optional leaves."""
+    from flamapy.metamodels.fm_metamodel.models import Feature, FeatureModel, Relation
+    spec_nodes = [build.feat(f"N{i}") for i in range(depth + 1)]
+    objs = [Feature(f"N{i}") for i in range(depth + 1)]
+    for i in range(depth):
+        kind = (1, 1) if i % 2 == 0 else (0, 1)
+        spec_nodes[i]["rels"].append(build.rel(kind[0], kind[1], [spec_nodes[i + 1]]))
+        objs[i].add_relation(Relation(objs[i], [objs[i + 1]], kind[0], kind[1]))
+    for j in range(tail):
+        spec_nodes[depth]["rels"].append(build.rel(0, 1, [build.feat(f"T{j}")]))
+        objs[depth].add_relation(Relation(objs[depth], [Feature(f"T{j}")], 0, 1))
+    return {"root": spec_nodes[0], "ctcs": []}, FeatureModel(objs[0], [])
 
 
 def enum_rounding(tier, seed):
@@ -215,12 +257,14 @@ def _mixed_and_deep(model):
 
 
 def nontrivial(case):
-    if "corpus" in case:
+    if "corpus" in case or "deep" in case:
         return True
     return _mixed_and_deep(case["model"])
 
 
 def classes(case):
+    if "deep" in case:
+        return {"deep-chain"}
     if "corpus" in case:
         parts = case["corpus"].split(os.sep)
         return {"corpus:" + (parts[2] if "simple_betty_gen_models" in case["corpus"] else parts[0])}
@@ -234,6 +278,7 @@ SUBS = [
     Sub("shapes", check, enum=enum_shapes, nontrivial=nontrivial, classes=classes, exhaustive=True, min_nontrivial=0.0),
     Sub("random-trees", check, gen=lambda tier: big_trees(200 if tier == "thorough" else 60), nontrivial=nontrivial,
         classes=classes, n={"quick": 400, "thorough": 2000}, essential=["size:>50", "root-only"] , min_nontrivial=0.005),
+    Sub("deep-chains", check, enum=enum_deep, nontrivial=nontrivial, classes=classes, shards={"quick": 6, "thorough": 6}),
     Sub("rounding-boundaries", check, enum=enum_rounding, nontrivial=lambda case: True,
         classes=lambda case: {"rounding-boundary"}, exhaustive=False),
     Sub("corpus", check, enum=enum_corpus, nontrivial=nontrivial, classes=classes,
